@@ -6,7 +6,7 @@ ID="$1"; CRATE="$2"; CRATEARGS="$3"; DEMOARGS="$4"
 W=/tmp/wt-$ID
 export CARGO_TARGET_DIR=$W/target CARGO_NET_OFFLINE=true
 cd $W || exit 2
-git checkout -q -- . && git clean -fdq -e OUT -e target
+git reset -q --hard && git clean -fdq -e OUT -e target
 git apply OUT/patch.diff || { echo "CONFIRM $ID patch-does-not-apply"; exit 1; }
 cargo test -q -p $CRATE --offline $CRATEARGS > OUT/confirm-existing.log 2>&1; e1=$?
 if [ -f OUT/demo.diff ]; then git apply OUT/demo.diff 2>/dev/null || git apply --3way OUT/demo.diff 2>/dev/null || echo "demo.diff did not apply"; fi
